@@ -42,7 +42,7 @@ def gen(ctx):
         acts, gst, depth, probe = [], [], 0, []
         curlen = N
         for _ in range(r.randint(3, 9)):
-            opts = ['read', 'write', 'grow']
+            opts = ['read', 'write', 'grow', 'hide', 'readerr']
             if len(gst) < 3: opts += ['start', 'start']
             live = [i for i, s in enumerate(gst) if s != 'done']
             if live: opts += ['advance'] * 4 + ['close']
@@ -61,6 +61,8 @@ def gen(ctx):
                 acts.append(['exit']); depth -= 1
             elif k == 'read':
                 acts.append(['read', r.choice([r.randrange(N), curlen - 1])])
+            elif k in ('hide', 'readerr'):
+                acts.append([k])
             elif k == 'grow':
                 inc = r.choice([1, 3, 1000])
                 curlen += inc
@@ -79,6 +81,25 @@ def gen(ctx):
             else:
                 acts += [['advance', i]] * 8        # exhaust (at most 6 frames + stop)
         cases.append(dict(n=N, acts=acts, probe=sorted(set(probe))))
+    # an array without elements: every generator raises at its first next(), every element access raises
+    for _ in range(6 if ctx.quick else 60):
+        acts, depth, ng = [], 0, 0
+        for _ in range(r.randint(3, 8)):
+            k = r.choice(['start', 'advance', 'enter', 'exit', 'readerr', 'hide', 'close'])
+            if k == 'start' and ng < 2:
+                acts.append(['start'] + r.choice(PARAMS[:2])); ng += 1
+            elif k in ('advance', 'close') and ng:
+                acts.append([k, r.randrange(ng)])
+            elif k == 'enter' and depth < 2:
+                acts.append(['enter']); depth += 1
+            elif k == 'exit' and depth:
+                acts.append(['exit']); depth -= 1
+            elif k == 'readerr':
+                acts.append(['readerr'])
+            elif k == 'hide' and depth == 0:
+                acts.append(['hide'])
+        acts += [['exit']] * depth + [['advance', g] for g in range(ng)]
+        cases.append(dict(n=0, acts=acts, probe=[]))
     return cases
 
 
@@ -94,6 +115,8 @@ def act_term(a):
     if k == 'read': return f"(ARead {cz(a[1])})"
     if k == 'write': return f"(AWrite {cz(a[1])} {cz(a[2])})"
     if k == 'grow': return f"(AResize {cz(a[2])})"
+    if k == 'hide': return "AOpenFail"
+    if k == 'readerr': return "AAccessErr"
     raise ValueError(a)
 
 
